@@ -264,7 +264,7 @@ func runScenario(s scenario) *demuxRun {
 		out.data = append(out.data, d)
 		out.errs = append(out.errs, err)
 		out.posAt = append(out.posAt, pos())
-		return r.At(0).Int() == 2 || errors.Is(err, astits.ErrNoMorePackets)
+		return r.At(0).Int() == 2 || errors.Is(err, astits.ErrNoMorePackets) || errors.Is(err, errInjected)
 	}
 	nextPacket := func() (stop bool) {
 		var p *astits.Packet
@@ -277,7 +277,7 @@ func runScenario(s scenario) *demuxRun {
 		out.packets = append(out.packets, p)
 		out.errs = append(out.errs, err)
 		out.posAt = append(out.posAt, pos())
-		return r.At(0).Int() == 2 || errors.Is(err, astits.ErrNoMorePackets)
+		return r.At(0).Int() == 2 || errors.Is(err, astits.ErrNoMorePackets) || errors.Is(err, errInjected)
 	}
 	for _, op := range s.ops {
 		switch op {
